@@ -444,12 +444,21 @@ def findings_corpus() -> list[gen_project.Project]:
     two = _tiny("two-sources", 'packages = [{ include = "pkg", from = "a" }, { include = "pkg", from = "b" }]\n',
                 {"a/pkg/__init__.py": (b"A = 1\n", 0o644), "b/pkg/__init__.py": (b"B = 1\n", 0o644)},
                 {"packages": [{"include": "pkg", "from": "a"}, {"include": "pkg", "from": "b"}], "two_sources": True})
-    return [dup, up, two]
+    # files that resolve OUTSIDE the project / source root (the unchanged builder refuses them: `relative_to` raises):
+    # an explicit include beside the project, and a package data file that is a symbolic link to a project-level directory
+    outside = _tiny("outside-include", 'include = [{ path = "../shared/schema.json", format = ["wheel"] }]\n',
+                    {"outside_include/__init__.py": (b"x = 1\n", 0o644), "../shared/schema.json": (b"{}\n", 0o644)},
+                    {"include": [{"path": "../shared/schema.json", "format": ["wheel"]}]})
+    link = _tiny("link-outside", 'packages = [{ include = "link_outside", from = "src" }]\n',
+                 {"src/link_outside/__init__.py": (b"x = 1\n", 0o644), "shared/data.json": (b"{}\n", 0o644)},
+                 {"packages": [{"include": "link_outside", "from": "src"}],
+                  "symlinks": {"src/link_outside/data.json": "../../shared/data.json"}})
+    return [dup, up, two, outside, link]
 
 
 # classes whose witness reproduces on the current tree but which the lead has not yet triaged (fix or known finding):
 # reported as a note and counted, not as a violation; remove the key here once known_findings.json / a repo fix has it
-PENDING_CLASSES = {"two-sources-one-archive-name"}
+PENDING_CLASSES: set[str] = set()   # two-sources-one-archive-name: repaired in /repo (the builder refuses a second file under one name)
 
 
 def perm_stream(ctx: core.Ctx) -> None:
